@@ -133,6 +133,50 @@ UNITS += [
 """),
 ]
 
+UNITS += [
+    # entering a directory: the current parent trees are pushed, the new ones are the sub-trees of the parent entries NAMED like
+    # the directory (loaded with their cursor at 0)
+    Unit(name="set_dir", file=PA, anchor="fn set_dir(\n        &mut self,", within="impl Parent {",
+         wrap_open="impl ParentW {", wrap_close="}",
+         functions=["archiver::parent::Parent::set_dir"],
+         rewrites=[
+             Rw("be: &impl DecryptReadBackend,", "be: &VBeP,", sig=True, why="backend -> opaque"),
+             Rw("index: &impl ReadGlobalIndex,", "index: &VIndexQ,", sig=True, why="index -> opaque"),
+             Rw("name: &OsStr,", "name: &NameR,", sig=True, why="OsStr -> name stub"),
+             Rw(r"self\s*\.p_node\(name\)\s*\.filter_map\(\|p_node\| \{.*?\n            \}\)\s*\.collect\(\)", "vsubtree_ids_of_named(&mut self.trees, name)", regex=True,
+                why="ABSTRACTED: self.p_node(name).filter_map(subtree or warn).collect() -> the sub-tree ids of the entries named `name` (uninterpreted NAMED_SUBTREES; the per-tree lookup is unit p_node_lookup)"),
+             Rw("new_ids.sort();", "vsort_ids(&mut new_ids);", why="Vec::sort -> stub: same ids"),
+             Rw("new_ids.dedup();", "vdedup_ids(&mut new_ids);", why="Vec::dedup -> stub: same ids"),
+             Rw(r"new_ids\s*\.into_iter\(\)\s*\.filter_map\(\|tree_id\| match Tree::from_backend\(be, index, tree_id\) \{.*?\n            \}\)\s*\.collect\(\)", "vload_trees(be, index, new_ids)", regex=True,
+                why="ABSTRACTED: ids.into_iter().filter_map(load or warn).collect() -> stub: every loaded tree belongs to one of the ids, cursor 0"),
+             Rw("std::mem::replace(&mut self.trees, new_tree)", "vmem_replace_trees(&mut self.trees, new_tree)", why="std::mem::replace"),
+         ],
+         hints=[("before", "vmem_replace_trees(&mut self.trees, new_tree)", """        proof {
+            let named = NAMED_SUBTREES(old(self).trees@, *name);
+            assert forall|i: int| 0 <= i < new_tree@.len() implies (#[trigger] new_tree@[i]).1 == 0
+                && exists|j: int| 0 <= j < named.len() && new_tree@[i].0 == TREE_OF(#[trigger] named[j]) by {
+                let j0 = choose|j: int| 0 <= j < ids1.len() && new_tree@[i].0 == TREE_OF(#[trigger] ids1[j]);
+                assert(ids1.contains(ids1[j0]));
+                assert(named.contains(ids1[j0]));
+                let j1 = choose|j: int| 0 <= j < named.len() && named[j] == ids1[j0];
+                assert(new_tree@[i].0 == TREE_OF(named[j1]));
+            }
+        }"""),
+                ("before", "let new_tree = vload_trees(", "        let ghost ids1 = new_ids@;")],
+         contract="""
+    ensures
+        // (the lookup of the name may have moved the cursors of the current trees forward; the trees themselves are what is pushed)
+        /*@entering_a_directory_pushes_the_current_trees*/ final(self).stack@.len() == old(self).stack@.len() + 1
+            && final(self).stack@.subrange(0, old(self).stack@.len() as int) =~= old(self).stack@
+            && final(self).stack@.last()@.len() == old(self).trees@.len()
+            && forall|i: int| 0 <= i < old(self).trees@.len() ==> (#[trigger] final(self).stack@.last()@[i]).0 == old(self).trees@[i].0,
+        // inside the directory only sub-trees of the parent entries with THIS name are consulted, each from its first entry on
+        /*@new_parent_trees_are_the_subtrees_named_like_the_directory*/ forall|i: int| 0 <= i < final(self).trees@.len() ==> (#[trigger] final(self).trees@[i]).1 == 0
+            && exists|j: int| 0 <= j < NAMED_SUBTREES(old(self).trees@, *name).len() && final(self).trees@[i].0 == TREE_OF(#[trigger] NAMED_SUBTREES(old(self).trees@, *name)[j]),
+        final(self).ignore_ctime == old(self).ignore_ctime && final(self).ignore_inode == old(self).ignore_inode,
+"""),
+]
+
 M = "archiver::parent::verif_kani::"
 KANI = [
     Harness(M + "c11_is_parent_requires_equal_metadata", kind="bounded",
@@ -151,6 +195,6 @@ KANI_ASSUMPTIONS = [
 ]
 META = {"not_covered": [
     "equality of the resulting tree with a full backup (composition through the archiver)",
-    "which snapshots become parents (group / latest selection in ParentOptions::get_parent: iterator adapters; the wiring of the two comparison switches IS a unit), set_dir (iterator chains loading the sub-trees; finish_dir IS a unit), several parent trees",
+    "which snapshots become parents (group / latest selection in ParentOptions::get_parent: iterator adapters; the wiring of the two comparison switches IS a unit), the two iterator chains inside set_dir (name lookup over all parent trees, loading the sub-trees: abstracted; set_dir and finish_dir ARE units), several parent trees",
     "the unchanged-tree short cut in tree_archiver.rs backup_tree",
 ]}
